@@ -631,6 +631,10 @@ func (b *boundedIterator) Seek(target []byte) bool {
 
 	// If target is at or after end bound, the seek will fail
 	if b.end != nil && bytes.Compare(target, b.end) >= 0 {
+		// Nothing in the range is >= target. Move the underlying iterator
+		// there as well, so that the iterator is invalid afterwards instead of
+		// staying valid on whatever key it was on before the call
+		b.Iterator.Seek(target)
 		return false
 	}
 
